@@ -249,6 +249,8 @@ def gen_case(rng, spawner='POPEN'):
                     spec['cancel_fault'] = True
                 if k == 'running':
                     spec['cancel_at'] = rng.choice([0.02, 0.08, 0.2])
+                    if rng.random() < 0.25:
+                        spec['kill_fault'] = True
                 elif k == 'race_exit':
                     spec['cancel_at'] = max(0.0, dur + rng.choice(
                                             [-0.03, -0.01, 0, 0.01, 0.03]) + 0.04)
@@ -470,6 +472,13 @@ class ExecSim(object):
                             mt.current_thread().name == 'exec-work':
                         sim.hits.add('poison:late_cancel_kill')
                         sim.cancel_faults.add(uid)
+                        raise Poison('kill command failed for %s' % uid)
+                    if sim.specs.get(uid, {}).get('kill_fault') and \
+                            mt.current_thread().name != 'exec-work':
+                        # the kill command fails for a running task (cancel
+                        # request or run-time limit): the executor has its own
+                        # fallback, the task is canceled all the same
+                        sim.hits.add('fault:kill_command')
                         raise Poison('kill command failed for %s' % uid)
                     return _orig(task, pid)
                 lm.cancel_task = faulty
